@@ -64,7 +64,7 @@ def main():
         for chk in [c for c in a.checks.split(",") if c]:
             for seed in a.seeds.split(","):
                 evdir = tempfile.mkdtemp(prefix="ev_", dir="/var/tmp")
-                env2 = dict(os.environ, EAO_REPO=scratch, VERIF_EVIDENCE_DIR=evdir, VERIF_SEED=seed, VERIF_OUT_DIR=os.path.join(evdir, "out"))
+                env2 = dict(os.environ, VERIF_STOP_AT_FIRST=os.environ.get("VERIF_STOP_AT_FIRST", "1"), EAO_REPO=scratch, VERIF_EVIDENCE_DIR=evdir, VERIF_SEED=seed, VERIF_OUT_DIR=os.path.join(evdir, "out"))
                 t0 = time.time()
                 rc, out = sh("./check %s --tier %s" % (chk, a.tier), cwd=VERIF, env=env2, timeout=7200)
                 lines = [l for l in out.splitlines() if l.startswith("VIOLATION") or l.startswith("   oracle")]
